@@ -9,7 +9,15 @@ from ..common import bits2arr, driver, f2b
 
 THEOREMS = ['fid_closed_form', 'se_closed_form', 'pdd_model_eq', 'pdd_closed_form',
             'cpmg_model_eq', 'cpmg_closed_form', 'udd_model_eq', 'udd_closed_form', 'cddY_zero',
-            'cddY_one', 'cddY_two', 'cddY_succ', 'cdd_closed_form']
+            'cddY_one', 'cddY_two', 'cddY_succ', 'cdd_closed_form',
+            # the numerical engine's model on exact sign-flip pulses equals the specification (C19Engine)
+            'isEigh_zero', 'hamiltonian_no_control', 'propagators_no_control',
+            'noControl_of_diagonalize', 'mask_current', 'maskThr_nonneg', 'cm_no_control_of_mask',
+            'cm_no_control', 'cm_no_control_error', 'cm_no_control_closed', 'ff_no_control_sigma_z',
+            'ff_no_control_sigma_z_error', 'engine_sign_sequence', 'engine_eq_ddF',
+            'engine_eq_ddF_error', 'engine_fid', 'engine_se', 'engine_pdd', 'engine_cpmg',
+            'engine_udd', 'engine_cdd', 'se_example_mask', 'se_example']
+LEAN_MODULES = ['FFVerif.Props.C19', 'FFVerif.Props.C19Engine']
 PINS = ['pinFID', 'pinSE', 'pinPDD', 'pinCPMG', 'pinCDD', 'pinUDD']
 GEN_SITES = []
 COMPONENTS = ['analytic']
